@@ -148,6 +148,19 @@ def extra_obligations(mods, tier, seed):
     checks = [("is_pressed-is-cached-sample", n_dr == 1 and n_val >= 3, f"loop(): {n_dr} digitalRead, {n_val} uses of the cached sample"),
               ("one-poll-per-pass-before-user-code", polls == 1 and first_stmt_is_poll, f"{polls} poll(s); first statement is the poll: {first_stmt_is_poll}"),
               ("pot-read-is-fresh-analogRead", n_ar == 2, f"{n_ar} analogRead(A1) for two read() calls")]
+    # the same arms inside a helper function, a branch and a nested loop (the cached sample must be used wherever the call occurs)
+    src2 = ("from Reduino.Sensors import Button, Potentiometer\nfrom Reduino.Communication import SerialMonitor\nm = SerialMonitor(9600)\n"
+            "b = Button(2)\ndef held():\n    return b.is_pressed()\ndef show():\n    m.write(b.is_pressed())\nwhile True:\n    r = held()\n    show()\n"
+            "    if r:\n        m.write(b.is_pressed())\n    for i in range(2):\n        m.write(b.is_pressed())\n")
+    try:
+        cpp2 = E.emit(P.parse(src2))
+        body2 = cpp2[cpp2.index("__redu_button_value_b"):] if "__redu_button_value_b" in cpp2 else cpp2
+        n_dr2 = len(re.findall(r"digitalRead\(", cpp2[cpp2.index("void loop()"):])) + sum(
+            len(re.findall(r"digitalRead\(", f)) for f in re.findall(r"\n\w+ (?:held|show)\([^)]*\) \{.*?\n\}", cpp2, re.S))
+        checks.append(("is_pressed-is-cached-sample-in-helpers-branches-loops", n_dr2 == 1,
+                       f"helper functions + loop(): {n_dr2} digitalRead in total (exactly the poll)"))
+    except Exception as ex:
+        checks.append(("is_pressed-is-cached-sample-in-helpers-branches-loops", False, f"{type(ex).__name__}: {ex}"))
     for name, ok, where in checks:
         out.append({"name": f"C15/arms/{name}", "status": "discharged" if ok else "sat", "backend": "enum", "where": where,
                     "time": round(time.time() - t0, 3), "replay": {"source": src, "loop": loop[:600]}, "replay_confirmed": not ok})
